@@ -280,7 +280,17 @@ fn worker_body(sh: &Arc<Shared>, i: usize, descs: &[CallSiteData]) {
         let mut receiver = TracingEventReceiver::default();
         for (k, d) in descs.iter().enumerate() {
             let regs_before = host.0.lock().unwrap().len();
-            let result = receiver.try_receive(TracingEvent::NewCallSite { id: k as u64, data: d.clone() });
+            // every third announcement reaches the arena through the restore path: a receiver created
+            // from persisted metadata that holds this one call site (`new` interns and registers
+            // exactly as a `NewCallSite` event does)
+            let result = if (i + k) % 3 == 2 {
+                let text = format!("{{\"{k}\":{}}}", serde_json::to_string(d).expect("serialize call site"));
+                let md: tracing_tunnel::PersistedMetadata = serde_json::from_str(&text).expect("persisted metadata");
+                receiver = TracingEventReceiver::new(md, Default::default(), Default::default());
+                Ok(())
+            } else {
+                receiver.try_receive(TracingEvent::NewCallSite { id: k as u64, data: d.clone() })
+            };
             let held = receiver.verif_snapshot().metadata.into_iter().find(|(id, ..)| *id == k as u64);
             let regs = host.0.lock().unwrap()[regs_before..].to_vec();
             let mut out = sh.out[i].lock().unwrap();
